@@ -118,6 +118,13 @@ class Check:
                 ops.append({'op': 'new', 'i': i, 'date': self._gen_date(rnd), 'lat': lat, 'lon': lon, 'h': h, 'frame': rnd.choice(['NED', 'NED', 'ENU']),
                             'defaults': rnd.random() < 0.15})
                 created.add(i)
+                earlier = [o for o in ops[:-1] if o['op'] == 'new' and not o.get('defaults')]
+                if earlier and not ops[-1]['defaults'] and rnd.random() < 0.3:
+                    # a second object built through the constructor for the same date and place as an earlier one,
+                    # in the other frame (or the same): objects share nothing
+                    o = rnd.choice(earlier)
+                    ops[-1].update({'date': dict(o['date']), 'lat': o['lat'], 'lon': o['lon'], 'h': o['h'],
+                                    'frame': rnd.choice(['ENU' if o['frame'] == 'NED' else 'NED', o['frame']])})
             elif r < 0.65:
                 lat, lon, h = self._gen_place(rnd)
                 ops.append({'op': 'field', 'i': i, 'date': self._gen_date(rnd, ('float', 'date', 'keep', 'keep', 'omit', 'int')), 'lat': lat, 'lon': lon, 'h': h})
